@@ -7,53 +7,56 @@ import (
 )
 
 var verifC27Exact = [3]string{"a", "ab", "b"}
-var verifC27Glob = [4]string{"a*", "?b", "*", "b?"}
+var verifC27Glob = [6]string{"a*", "?b", "*", "b?", "[ab]*", "a"}
 
-// VerifC27Routing: a tenant is served by the first hashring whose tenant list matches it exactly or by glob,
-// a hashring without tenant list matching everything; repeated requests get the same hashring.
+// VerifC27Routing: a tenant is served by the first configured hashring whose tenant list matches it exactly or
+// by glob, a hashring without tenant list matching everything; repeated requests get the same hashring.
+// The multi hashring is built by NewMultiHashring from a configuration.
 func VerifC27Routing() {
 	tenant := verifStr("tenant", verifParam("L", 2), "ab")
 	nr := verifIntRange("hashrings", 1, verifParam("RINGS", 3))
-	m := &multiHashring{cache: map[string]Hashring{}}
 	type ringSpec struct {
 		def   bool
 		exact []string
 		globs []string
 	}
 	var specs []ringSpec
+	var cfg []HashringConfig
 	for i := 0; i < nr; i++ {
 		var rs ringSpec
-		var ts tenantSet
+		hc := HashringConfig{Hashring: verifRingAddr[i], Endpoints: []Endpoint{{Address: verifRingAddr[i]}}}
 		switch verifIntRange(verifName("kind", i), 0, 2) {
 		case 0:
 			rs.def = true
 		case 1:
-			ts = tenantSet{}
 			k := verifIntRange(verifName("exacts", i), 1, 2)
 			for j := 0; j < k; j++ {
 				e := verifC27Exact[verifIntRange(verifName("exact", i, j), 0, 2)]
-				mt := TenantMatcherTypeExact
-				if verifIntRange(verifName("exactDefaultType", i, j), 0, 1) == 1 {
-					mt = "" // the default matcher type is exact
-				}
-				ts[e] = mt
+				hc.Tenants = append(hc.Tenants, e)
 				rs.exact = append(rs.exact, e)
+			}
+			hc.TenantMatcherType = TenantMatcherTypeExact
+			if verifIntRange(verifName("exactDefaultType", i), 0, 1) == 1 {
+				hc.TenantMatcherType = "" // the default matcher type is exact
 			}
 		default:
-			ts = tenantSet{}
-			g := verifC27Glob[verifIntRange(verifName("glob", i), 0, 3)]
-			ts[g] = TenantMatcherGlob
-			rs.globs = append(rs.globs, g)
-			if verifIntRange(verifName("alsoExact", i), 0, 1) == 1 {
-				e := verifC27Exact[verifIntRange(verifName("exact", i, 9), 0, 2)]
-				ts[e] = TenantMatcherTypeExact
-				rs.exact = append(rs.exact, e)
+			k := verifIntRange(verifName("globs", i), 1, 2)
+			for j := 0; j < k; j++ {
+				g := verifC27Glob[verifIntRange(verifName("glob", i, j), 0, 5)]
+				hc.Tenants = append(hc.Tenants, g)
+				rs.globs = append(rs.globs, g)
 			}
+			hc.TenantMatcherType = TenantMatcherGlob
 		}
 		specs = append(specs, rs)
-		m.tenantSets = append(m.tenantSets, ts)
-		m.hashrings = append(m.hashrings, SingleNodeHashring(verifRingAddr[i]))
+		cfg = append(cfg, hc)
 	}
+	mh, err := NewMultiHashring(AlgorithmHashmod, 1, cfg, nil)
+	verifAssert(err == nil, "multi-hashring-built")
+	if err != nil {
+		return
+	}
+	m := mh
 	// reference: first matching ring
 	want := -1
 	for i, rs := range specs {
